@@ -529,3 +529,25 @@ M("c01-output-eq-value-only", "C01", "R01.12", DT, "        return self.value ==
 M("c17-proof-gt", "C17", "R17.4", MT, "    if index_of_interest >= merkle_node.children[1].index:", "    if index_of_interest > merkle_node.children[1].index:")
 M("c17-proof-order-lost", "C17", "R17.4", MT, "        reconstruct = lambda ot, rec: (rec, ot) # noqa", "        reconstruct = lambda ot, rec: (ot, rec) # noqa")
 M("c17-proof-sibling-not-hashed", "C17", "R17.4", MT, "    simplified_other = MerkleNode(other.index, (), other.hash())", "    simplified_other = MerkleNode(other.index, (), other.value)")
+
+# ----------------------------------------------------------------------------------------------- rules added after the second seed round
+M("c10-send-skips-a-byte", "C10", "R10.8", RP, "        self.send_buffer = self.send_buffer[sent:]", "        self.send_buffer = self.send_buffer[sent + 1:]")
+M("c10-send-lifo", "C10", "R10.8", RP, "                self.send_buffer = self.send_backlog.pop(0)\n                self.handle_can_send(sock)", "                self.send_buffer = self.send_backlog.pop()\n                self.handle_can_send(sock)")
+M("c10-frame-length-of-message-only", "C10", "R10.8", RP, "        self.send_backlog.append((MAGIC + struct.pack(b\">I\", len(data)) + data))", "        self.send_backlog.append((MAGIC + struct.pack(b\">I\", len(message.serialize())) + data))")
+M("c20-select-unbounded", "C20", "R20.8", LP, "        events = self.selector.select(timeout=1)", "        events = self.selector.select()")
+M("c20-loop-extra-exit", "C20", "R20.8", LP, "                self.handle_selector_events()\n", "                self.handle_selector_events()\n                if not self.network_manager.connected_peers and not self.network_manager.disconnected_peers:\n                    break\n")
+M("c20-listening-only", "C20", "R20.8", LP, "            if key.data is LISTENING_SOCKET:\n                self.handle_incoming_connection(key.fileobj)  # type: ignore\n            else:\n                self.handle_remote_peer_selector_event(key, mask)", "            if key.data is LISTENING_SOCKET:\n                self.handle_incoming_connection(key.fileobj)  # type: ignore\n            elif mask & selectors.EVENT_READ:\n                self.handle_remote_peer_selector_event(key, mask)")
+M("c18-horizon-typo", "C18", "R18.7", "skepticoin/cheating.py", "    163000  : '0004ffae52a8f42088d3ccc24f0f04b11489666329c0d6321ebaf0c3b9cd5140',\n}", "    1630000 : '0004ffae52a8f42088d3ccc24f0f04b11489666329c0d6321ebaf0c3b9cd5140',\n}")
+M("c08-without-rowid", "C08", "R08.8", BS, "                block_hash blob REFERENCES chain(block_hash)\n            )''')", "                block_hash blob REFERENCES chain(block_hash)\n            ) WITHOUT ROWID''')")
+M("c05-clock-clamped", "C05", "R05.2", CS, "        validate_block_by_itself(block, current_timestamp)", "        validate_block_by_itself(block, max(current_timestamp, self.head().timestamp) if self.current_chain_hash else current_timestamp)")
+M("c11-recv-loop", "C11", "P8", LP, "                recv_data = sock.recv(1024)\n\n                if recv_data:\n                    remote_peer.handle_receive_data(recv_data)", "                recv_data = sock.recv(1024)\n                while len(recv_data) == 1024:\n                    remote_peer.handle_receive_data(recv_data)\n                    recv_data = sock.recv(1024)\n\n                if recv_data:\n                    remote_peer.handle_receive_data(recv_data)")
+M("c11-recv-huge", "C11", "P8", LP, "                recv_data = sock.recv(1024)", "                recv_data = sock.recv(1024 * 1024)")
+M("c14-shared-default-set", "C14", "R14.5", WAL, "        public_key_annotations: Dict[bytes, str],\n    ):", "        public_key_annotations: Dict[bytes, str],\n        spent: Set[OutputReference] = set(),\n    ):", WAL, "        ] = set()  # TODO save to disk too at some point.", "        ] = spent  # TODO save to disk too at some point.")
+M("c15-giveback-saved", "C15", "R15.6", "skepticoin/mining.py", "            self.wallet.restore_annotated_public_key(self.public_key, \"reserved for potentially mined block\")\n", "            self.wallet.restore_annotated_public_key(self.public_key, \"reserved for potentially mined block\")\n            save_wallet(self.wallet)\n")
+M("c19-announcement-overwrites", "C19", "R19.8", RP, "            elif key not in nm.connected_peers:\n                nm.disconnected_peers[key] = DisconnectedRemotePeer(host, announced_peer.port, OUTGOING, None,", "            if key not in nm.connected_peers:\n                nm.disconnected_peers[key] = DisconnectedRemotePeer(host, announced_peer.port, OUTGOING, None,")
+M("c20-connect-raises", "C20", "R20.7", LP, "        sock.connect_ex(server_addr)", "        try:\n            sock.connect(server_addr)\n        except BlockingIOError:\n            pass")
+M("c20-startup-unvalidated", "C20", "R13.6", "skepticoin/networking/threading.py", "        self.local_peer.chain_manager.set_coinstate(coinstate)", "        self.local_peer.chain_manager.set_coinstate(coinstate, validated=False)")
+M("c09-buffering-flushes", "C09", "R09.5", BS, "            self.write_buffer.append(block)\n", "            self.write_buffer.append(block)\n            if len(self.write_buffer) > 100:\n                self.write_blocks_to_disk(self.write_buffer)\n                self.write_buffer.clear()\n")
+M("c03-inplace-reference-list", "C03", "R03.8", WAL, "            newly_spent_outputs.append(output_reference)\n", "            newly_spent_outputs.append(output_reference)\n            coinstate.at_head.public_key_balances[SECP256k1PublicKey(public_key)].output_references.sort()\n")
+M("c08-header-version-not-restored", "C08", "R08.9", "skepticoin/datatypes.py", "    def __init__(self, summary: BlockSummary, pow_evidence: PowEvidence):\n        self.version = 0", "    def __init__(self, summary: BlockSummary, pow_evidence: PowEvidence, version: int = 0):\n        self.version = version")
+M("c12-broadcast-try-outside-loop", "C12", "R09.8", MGR, "        for peer in self.get_active_peers():\n            try:\n                # try/except b/c .send_message might try to set the selector for a just-closed sock to writing\n                peer.send_message(message)\n            except (ValueError, KeyError) as e:", "        for peer in self.get_active_peers():\n            try:\n                # try/except b/c .send_message might try to set the selector for a just-closed sock to writing\n                peer.send_message(message)\n            except (KeyError) as e:")
